@@ -6,7 +6,9 @@ package harness
 
 import (
 	"context"
+	"runtime"
 	"sync"
+	"sync/atomic"
 	"testing"
 	"time"
 
@@ -149,17 +151,25 @@ type c02sCase struct {
 	Workers  int    `json:"workers"`
 	Cycles   int    `json:"cycles"`
 	SetEvery int    `json:"set_every"` // one worker also moves the limit up and down
+	// Storm > 0: instead of cycles, rounds of "every worker collects Storm tokens of one key, then all workers release
+	// everything at the same moment" (the limit is large enough for all of them): completions overlap each other and
+	// nothing else
+	Storm int `json:"storm,omitempty"`
 }
 
 func TestC02_strategy_parallel(t *testing.T) {
 	kit.RequireMode(t, "std")
 	kit.Check(t, kit.Prop[c02sCase]{
 		ID: "C02", Quick: 60, Thor: 1500,
-		Rule: "4-16 real threads x 1000-20000 TryAcquire/Release cycles directly on one strategy (all four kinds) while the limit moves; final state only: busy and every bin zero, a refused attempt held nothing; non-trivial = more threads than the limit",
+		Rule: "4-16 real threads x 1000-20000 TryAcquire/Release cycles directly on one strategy (all four kinds) while the limit moves, or 10-200 rounds in which every thread collects 16-512 tokens and all release them at the same moment; final state only: busy and every bin zero, a refused attempt held nothing; non-trivial = more threads than the limit",
 		Gen: func(t *rapid.T) c02sCase {
-			return c02sCase{Strategy: rapid.SampledFrom([]string{"simple", "simple", "precise", "lookup", "predicate"}).Draw(t, "strategy"),
+			c := c02sCase{Strategy: rapid.SampledFrom([]string{"simple", "simple", "precise", "lookup", "predicate"}).Draw(t, "strategy"),
 				Limit: rapid.IntRange(1, 6).Draw(t, "limit"), Workers: rapid.IntRange(4, 16).Draw(t, "workers"),
 				Cycles: rapid.SampledFrom([]int{1000, 5000, 20000}).Draw(t, "cycles"), SetEvery: rapid.SampledFrom([]int{0, 7, 50}).Draw(t, "setEvery")}
+			if rapid.IntRange(0, 2).Draw(t, "stormy") == 0 {
+				c.Storm = rapid.SampledFrom([]int{16, 128, 512}).Draw(t, "storm")
+			}
+			return c
 		},
 		Run: func(_ *testing.T, c c02sCase) kit.Outcome {
 			st, err := buildStack(StackCfg{Kind: "default", Strategy: c.Strategy, Limit: c.Limit}, nil, nil, time.Now())
@@ -179,6 +189,51 @@ func TestC02_strategy_parallel(t *testing.T) {
 				strat = st.lookup
 			default:
 				strat = st.pred
+			}
+			if c.Storm > 0 {
+				strat.SetLimit(c.Workers * c.Storm)
+				for round := 0; round < c.Cycles/100; round++ {
+					toks := make([][]core.StrategyToken, c.Workers)
+					for g := range toks {
+						for i := 0; i < c.Storm; i++ {
+							tk, ok := strat.TryAcquire(stackKeyCtx(context.Background(), []string{"a", "a", "b"}[(g+round)%3]))
+							if !ok || tk == nil || !tk.IsAcquired() {
+								return kit.Viol(c.Strategy+":storm-refused", "round %d: request %d of %d was refused under a limit of %d", round, g*c.Storm+i+1, c.Workers*c.Storm, c.Workers*c.Storm)
+							}
+							toks[g] = append(toks[g], tk)
+						}
+					}
+					var gate atomic.Bool
+					var ready, wg sync.WaitGroup
+					for g := range toks {
+						ready.Add(1)
+						wg.Add(1)
+						go func(mine []core.StrategyToken) {
+							defer wg.Done()
+							ready.Done()
+							for !gate.Load() {
+								runtime.Gosched()
+							}
+							for _, tk := range mine {
+								tk.Release()
+							}
+						}(toks[g])
+					}
+					ready.Wait()
+					gate.Store(true)
+					wg.Wait()
+					if b := st.busy(); b != 0 {
+						return kit.Viol(c.Strategy+":direct-end-busy", "round %d: %d threads released %d tokens each at the same moment: busy=%d with no token outstanding", round, c.Workers, c.Storm, b)
+					}
+					if st.partitioned() {
+						for i, n := range st.binNames {
+							if b := st.binBusy(i); b != 0 {
+								return kit.Viol(c.Strategy+":direct-end-bin-busy", "round %d: %d threads released %d tokens each at the same moment: bin %q busy=%d with no token outstanding", round, c.Workers, c.Storm, n, b)
+							}
+						}
+					}
+				}
+				return kit.Outcome{NonTrivial: true, Labels: []string{"strategy:" + c.Strategy, "storm"}}
 			}
 			start := make(chan struct{})
 			var wg sync.WaitGroup
